@@ -207,6 +207,16 @@ def run(ctx):
     # hostile receiver against the real sender
     for i, m in enumerate(muts[:: max(1, len(muts) // (60 if ctx.tier == "quick" else 300))]):
         cases.append({"mode": "hostile-send", "name": f"ack-fuzz-{i}", "raw_ack": m.hex() or "00", "files": 2, "close_after": bool(i % 2), "_expect": "returns"})
+    # well-formed confirmations that do not belong to the files being sent (unknown, repeated, or premature stream ids), as many as or more
+    # than the manifest has files, then the end of the control stream: "inconsistent counts" on input that has ended - the sender must
+    # come back with an error, not count them and wait
+    def file_done(sid, ok=1, msg=b""):
+        return bytes([0x13]) + sid.to_bytes(8, "big") + bytes([ok]) + len(msg).to_bytes(2, "big") + msg
+    for files in (1, 2, 3):
+        for ids in ([0xDEADBEEF] * files, [0] * files, [1] * (files + 1), list(range(100, 100 + 2 * files)), [0xFFFFFFFFFFFFFFFF] * (3 * files)):
+            for close_after in (False, True):
+                cases.append({"mode": "hostile-send", "name": f"ack-bogus-done-{files}f-{len(ids)}x{ids[0]:x}-{'close' if close_after else 'eof'}",
+                              "raw_ack": b"".join(file_done(i) for i in ids).hex(), "files": files, "close_after": close_after, "_expect": "returns"})
     cpath = os.path.join(ctx.workdir, "e2e.cases")
     with open(cpath, "w") as f:
         for c in cases:
